@@ -185,6 +185,13 @@ func (g *SessionManager) selectSession(msg interface{}) getty.Session {
 }
 
 func (g *SessionManager) getXid(msg interface{}) string {
+	// the senders hand over the whole rpc message: the xid is in its body
+	if rpcMessage, ok := msg.(message.RpcMessage); ok {
+		msg = rpcMessage.Body
+	}
+	if msg == nil {
+		return ""
+	}
 	var xid string
 	if tmpMsg, ok := msg.(message.AbstractGlobalEndRequest); ok {
 		xid = tmpMsg.Xid
@@ -195,12 +202,16 @@ func (g *SessionManager) getXid(msg interface{}) string {
 	} else if tmpMsg, ok := msg.(message.BranchReportRequest); ok {
 		xid = tmpMsg.Xid
 	} else {
-		msgType := reflect.TypeOf(msg)
 		msgValue := reflect.ValueOf(msg)
-		if msgType.Kind() == reflect.Ptr {
+		if msgValue.Kind() == reflect.Ptr {
 			msgValue = msgValue.Elem()
 		}
-		xid = msgValue.FieldByName("Xid").String()
+		if msgValue.Kind() == reflect.Struct {
+			// messages without an xid (identify requests, heartbeats) have no such field
+			if field := msgValue.FieldByName("Xid"); field.IsValid() && field.Kind() == reflect.String {
+				xid = field.String()
+			}
+		}
 	}
 	return xid
 }
